@@ -1,6 +1,6 @@
 (* Proofs about M8 (Model/NJobs.v) and about the functions regenerated from the source (Gen/T_njobs.v). *)
 From Coq Require Import ZArith List Bool Lia ZifyBool.
-Require Import JV.Base.PyPrelude JV.Model.NJobs JV.Gen.T_njobs.
+Require Import JV.Base.PyPrelude JV.Model.NJobs JV.Gen.T_njobs JV.Gen.T_nested.
 Import ListNotations.
 Open Scope Z_scope.
 
@@ -328,6 +328,207 @@ Proof.
       induction IH as [|c t Hc _ IHt]; [reflexivity|]. cbn in Hch. apply andb_prop in Hch as [H1 H2].
       cbn. rewrite (Hc cpus H1), (IHt H2). reflexivity.
     + apply procs_top_parallel; [lia|lia|assumption].
+Qed.
+
+(* ------------------------------------------- regenerated get_nested_backend / configure = the model *)
+Lemma gen_nested_eq : forall b, base_get_nested_backend (blevel b) = Ok (nested_backend b, None).
+Proof. intros b. unfold base_get_nested_backend, nested_backend. destruct (blevel b + 1 >? 1); reflexivity. Qed.
+
+Lemma gen_seq_nested_eq : forall a, seq_get_nested_backend a = Ok a.
+Proof. reflexivity. Qed.
+
+(* <class k>.configure(n_jobs) as the source says it; Raise (OtherError 1) = FallbackToBackend(Sequential at my level) *)
+Definition configure_gen (k : kind) (e : penv) (level n : Z) : result Z :=
+  match k with
+  | KSeq => base_configure (e_mp_none e) (e_cpus e) (e_daemon e) (e_depth e) (e_main e) level n
+  | KThr => thr_configure (e_mp_none e) (e_cpus e) (e_daemon e) (e_depth e) (e_main e) level n
+  | KLoky => loky_configure (e_mp_none e) (e_cpus e) (e_daemon e) (e_depth e) (e_main e) level n
+  | KMp => mp_configure (e_mp_none e) (e_cpus e) (e_daemon e) (e_depth e) (e_main e) level n
+  end.
+
+Lemma configure_gen_eq : forall k e l n,
+  configure_gen k e l n =
+  match eff_model k e l n with
+  | Raise x => Raise x
+  | Ok v => match k with KSeq => Ok v | _ => if v =? 1 then Raise (OtherError 1) else Ok v end
+  end.
+Proof.
+  intros [] e l n; unfold configure_gen, base_configure, thr_configure, loky_configure, mp_configure.
+  - rewrite (gen_seq_eq e l n). destruct (eff_model KSeq e l n); reflexivity.
+  - rewrite gen_pool_eq. change (pool_eff (e_mp_none e) (e_cpus e) n) with (eff_model KThr e l n).
+    destruct (eff_model KThr e l n); reflexivity.
+  - rewrite gen_loky_eq. destruct (eff_model KLoky e l n); reflexivity.
+  - rewrite gen_mp_eq. destruct (eff_model KMp e l n); reflexivity.
+Qed.
+
+(* Parallel._initialize_backend: configure; on FallbackToBackend(b') replace the backend by b' and configure that one
+   (the try/except itself is hand-modelled; the configure functions are the regenerated ones) *)
+Definition initialize_backend_gen (b : bk) (e : penv) (n : Z) : result (bk * Z) :=
+  match configure_gen (bkind b) e (blevel b) n with
+  | Ok v => Ok (b, v)
+  | Raise (OtherError 1) =>
+      let sb := {| bkind := KSeq; blevel := blevel b |} in
+      rmap (fun v => (sb, v)) (configure_gen KSeq e (blevel b) n)
+  | Raise x => Raise x
+  end.
+
+Lemma eff_model_no_fallback : forall k e l n c, eff_model k e l n <> Raise (OtherError c).
+Proof.
+  intros k e l n c. destruct k; cbn [eff_model]; unfold pool_eff;
+  repeat match goal with |- context [if ?x then _ else _] => destruct x end; discriminate.
+Qed.
+
+Lemma initialize_backend_gen_eq : forall b e n, initialize_backend_gen b e n = configure b e n.
+Proof.
+  intros [k l] e n. unfold initialize_backend_gen, configure. cbn [bkind blevel]. rewrite !configure_gen_eq.
+  pose proof (eff_model_no_fallback k e l n) as NF.
+  destruct (eff_model k e l n) as [v|x] eqn:E; cbn [bind].
+  - destruct k; try reflexivity; destruct (v =? 1); try reflexivity;
+      destruct (eff_model KSeq e l n) as [w|y] eqn:E2; cbn [rmap bind]; try reflexivity;
+      pose proof (eff_model_no_fallback KSeq e l n) as NF2; rewrite E2 in NF2; destruct y; try reflexivity.
+  - destruct x; try reflexivity. exfalso. apply (NF code). reflexivity.
+Qed.
+
+Lemma pool_sizes : forall n, thr_pool_size n = n /\ loky_pool_size n = n /\ mp_pool_size n = n.
+Proof. intros. unfold thr_pool_size, loky_pool_size, mp_pool_size. repeat split; lia. Qed.
+
+(* --------------------------------------------------- how many tasks can be in flight at once *)
+Definition max_conc (ws : site) :=
+  fix go (l : list call) : Z := match l with [] => 1 | ch :: t => Z.max (conc ws ch) (go t) end.
+Definition max_maxres (cpus : Z) :=
+  fix go (l : list call) : Z := match l with [] => 1 | ch :: t => Z.max (maxres cpus ch) (go t) end.
+
+Lemma conc_unfold : forall s bsel n children,
+  conc s (Call bsel n children) =
+  match call_outcome s bsel n with
+  | Raise _ => 0
+  | Ok (b, eff) => eff * max_conc (worker_site s b) children
+  end.
+Proof. intros. cbn [conc]. destruct (call_outcome s bsel n) as [[b eff]|]; reflexivity. Qed.
+
+Lemma maxres_unfold : forall cpus bsel n children,
+  maxres cpus (Call bsel n children) = Z.max (Z.max 1 (resolve cpus n)) (max_maxres cpus children).
+Proof. reflexivity. Qed.
+
+Lemma max_maxres_ge1 : forall cpus l, 1 <= max_maxres cpus l.
+Proof. induction l; cbn; lia. Qed.
+
+Lemma maxres_ge1 : forall cpus c, 1 <= maxres cpus c.
+Proof. intros cpus [b n ch]. rewrite maxres_unfold. lia. Qed.
+
+Lemma max_conc_bound : forall (B : call -> Z) ws children,
+  Forall (fun c => conc ws c <= B c) children ->
+  max_conc ws children <= (fix go (l : list call) : Z := match l with [] => 1 | ch :: t => Z.max (B ch) (go t) end) children.
+Proof. intros B ws children H. induction H; cbn; lia. Qed.
+
+Lemma max_conc_le1 : forall ws children, Forall (fun c => conc ws c <= 1) children -> max_conc ws children = 1.
+Proof. intros ws children H. induction H; cbn; lia. Qed.
+
+Definition seq_site (s : site) : Prop := exists b, s_ctx s = Some b /\ bkind b = KSeq.
+Definition thr_site (s : site) : Prop := exists b, s_ctx s = Some b /\ bkind b = KThr /\ 1 <= blevel b.
+
+(* below a sequential context every default call runs one task at a time, whatever its n_jobs and whatever is below it *)
+Lemma conc_seq : forall c s, seq_site s -> default_tree c = true -> conc s c <= 1.
+Proof.
+  induction c as [bsel n children IH] using call_ind'. intros s Hs Hd.
+  rewrite default_tree_unfold in Hd. apply andb_prop in Hd as [Hb Hch]. destruct bsel; [discriminate|].
+  rewrite conc_unfold. unfold call_outcome. cbn [chosen]. destruct Hs as (b & Hctx & Hk). unfold active. rewrite Hctx.
+  destruct b as [k l]. cbn in Hk. subst k. unfold configure. cbn [bkind blevel eff_model].
+  destruct (n =? 0); cbn [bind]; [lia|]. unfold worker_site. cbn [bkind].
+  rewrite max_conc_le1; [lia|].
+  clear - IH Hch Hctx. induction IH as [|c t Hc _ IHt]; [constructor|].
+  cbn in Hch. apply andb_prop in Hch as [H1 H2]. constructor; [|exact (IHt H2)].
+  apply Hc; [|assumption]. eexists; split; [eassumption|reflexivity].
+Qed.
+
+Lemma all_default_Forall : forall (P : call -> Prop) children,
+  Forall (fun c => default_tree c = true -> P c) children -> all_default children = true -> Forall P children.
+Proof.
+  intros P children H. induction H as [|c t Hc _ IH]; intros Hd; [constructor|].
+  cbn in Hd. apply andb_prop in Hd as [H1 H2]. constructor; auto.
+Qed.
+
+(* in a worker thread of a first-level call: at most the largest resolved n_jobs of the subtree, never a product *)
+Lemma conc_thr : forall c s, thr_site s -> default_tree c = true -> conc s c <= maxres (e_cpus (s_env s)) c.
+Proof.
+  induction c as [bsel n children IH] using call_ind'. intros s Hs Hd.
+  rewrite default_tree_unfold in Hd. apply andb_prop in Hd as [Hb Hch]. destruct bsel; [discriminate|].
+  rewrite conc_unfold, maxres_unfold. unfold call_outcome. cbn [chosen].
+  destruct Hs as (b & Hctx & Hk & Hl). unfold active. rewrite Hctx.
+  destruct b as [k l]. cbn in Hk, Hl. subst k.
+  pose proof (max_maxres_ge1 (e_cpus (s_env s)) children) as G1.
+  destruct (configure {| bkind := KThr; blevel := l |} (s_env s) n) as [[b' eff]|] eqn:E; [|lia].
+  destruct (configure_spec _ _ _ _ _ E) as (Hge & Hlev & [[Hseq He] | [Heq Hne]]).
+  - (* resolved to one worker: sequential, the children are calls of the same thread *)
+    subst eff. unfold worker_site. rewrite Hseq.
+    assert (max_conc s children <= max_maxres (e_cpus (s_env s)) children) as M.
+    { apply (max_conc_bound (maxres (e_cpus (s_env s)))).
+      apply all_default_Forall; [|assumption]. eapply Forall_impl; [|exact IH]. cbn. intros c Hc Hdc. apply Hc; [|assumption].
+      exists {| bkind := KThr; blevel := l |}. auto. }
+    lia.
+  - (* a thread pool at level >= 1: its tasks see a sequential context *)
+    subst b'. assert (eff = resolve (e_cpus (s_env s)) n) as ->.
+    { unfold configure in E. cbn [bkind blevel eff_model] in E. unfold pool_eff in E.
+      destruct (n =? 0); [discriminate|]. destruct (e_mp_none (s_env s)); cbn [bind] in E.
+      - inversion E; subst. lia.
+      - destruct (resolve (e_cpus (s_env s)) n =? 1); cbn in E; inversion E; reflexivity. }
+    unfold worker_site. cbn [bkind]. rewrite max_conc_le1; [lia|].
+    apply all_default_Forall; [|assumption]. apply Forall_forall. intros c _ Hdc. apply conc_seq; [|assumption].
+    eexists; cbn [s_ctx]; split; [reflexivity|]. rewrite nested_level_ge1 by assumption. reflexivity.
+Qed.
+
+Lemma worker_site_cpus : forall s b, e_cpus (s_env (worker_site s b)) = e_cpus (s_env s).
+Proof. intros s [[] l]; reflexivity. Qed.
+
+(* from the top level: never more than two factors -- the first call that goes parallel and the largest n_jobs below it *)
+Lemma conc_top : forall c cpus, default_tree c = true ->
+  conc (top_site cpus) c <= maxres cpus c * maxres cpus c.
+Proof.
+  induction c as [bsel n children IH] using call_ind'. intros cpus Hd.
+  rewrite default_tree_unfold in Hd. apply andb_prop in Hd as [Hb Hch]. destruct bsel; [discriminate|].
+  rewrite conc_unfold, maxres_unfold. unfold call_outcome, chosen, active, top_site at 1. cbn [s_ctx s_env].
+  pose proof (max_maxres_ge1 cpus children) as G1.
+  destruct (n =? 0) eqn:Hn.
+  - assert (n = 0) by lia. subst. rewrite configure_zero. nia.
+  - unfold configure, default_backend. cbn [bkind blevel].
+    rewrite eff_unguarded; [|lia|]. 2:{ unfold unguarded; cbn; repeat split; auto; lia. }
+    cbn [bind]. change (e_cpus (s_env (top_site cpus))) with cpus.
+    pose proof (resolve_ge1 cpus n ltac:(lia)) as R.
+    destruct (resolve cpus n =? 1) eqn:Hr.
+    + cbn [eff_model]. rewrite Hn. cbn [bind]. unfold worker_site. cbn [bkind].
+      assert (max_conc (top_site cpus) children <= max_maxres cpus children * max_maxres cpus children) as M.
+      { clear - IH Hch. induction IH as [|c t Hc _ IHt]; [cbn; lia|].
+        cbn in Hch. apply andb_prop in Hch as [H1 H2]. specialize (Hc cpus H1). specialize (IHt H2).
+        pose proof (maxres_ge1 cpus c). pose proof (max_maxres_ge1 cpus t). cbn. nia. }
+      nia.
+    + unfold worker_site. cbn [bkind].
+      assert (max_conc {| s_ctx := Some (nested_backend {| bkind := KLoky; blevel := 0 |});
+                          s_env := with_env (s_env (top_site cpus)) true (e_daemon (s_env (top_site cpus))) (e_depth (s_env (top_site cpus)) + 1) |}
+                       children <= max_maxres cpus children) as M.
+      { apply (max_conc_bound (maxres cpus)). apply all_default_Forall; [|assumption].
+        apply Forall_forall. intros c _ Hdc.
+        match goal with |- conc ?s c <= _ => change cpus with (e_cpus (s_env s)) at 2 end.
+        apply conc_thr; [|assumption]. eexists; cbn [s_ctx]; split; [reflexivity|]. cbn. split; [reflexivity|lia]. }
+      nia.
+Qed.
+
+(* ... and exactly one factor survives below the first parallel call when the nested calls are themselves parallel:
+   a top-level call that goes parallel runs at most  n_jobs(root) x max n_jobs(below)  tasks at once *)
+Lemma conc_top_parallel : forall cpus n children,
+  n <> 0 -> resolve cpus n <> 1 -> all_default children = true ->
+  conc (top_site cpus) (Call None n children) <= resolve cpus n * max_maxres cpus children.
+Proof.
+  intros cpus n children Hn Hr Hch. rewrite conc_unfold. unfold call_outcome, chosen, active, top_site at 1. cbn [s_ctx s_env].
+  unfold configure, default_backend. cbn [bkind blevel].
+  rewrite eff_unguarded; [|lia|]. 2:{ unfold unguarded; cbn; repeat split; auto; lia. }
+  cbn [bind]. change (e_cpus (s_env (top_site cpus))) with cpus.
+  assert (resolve cpus n =? 1 = false) as -> by lia. unfold worker_site. cbn [bkind].
+  pose proof (resolve_ge1 cpus n Hn) as R.
+  apply Z.mul_le_mono_nonneg_l; [lia|].
+  apply (max_conc_bound (maxres cpus)). apply all_default_Forall; [|assumption].
+  apply Forall_forall. intros c _ Hdc.
+  match goal with |- conc ?s c <= _ => change cpus with (e_cpus (s_env s)) at 2 end.
+  apply conc_thr; [|assumption]. eexists; cbn [s_ctx]; split; [reflexivity|]. cbn. split; [reflexivity|lia].
 Qed.
 
 (* ---------------------------------------------------------------- statements of Props/C15.v (the file Props/C15.v only restates them and closes each with `exact`) *)
